@@ -60,6 +60,9 @@ class Task:
                 return
             k._tls.task = self
             self.state = 'running'
+            if k.trace_files:
+                import sys
+                sys.settrace(k._tracer)
             self.fn()
         except Kill:
             pass
@@ -103,6 +106,10 @@ class Kernel:
         self.keep_log = False
         self.stalled_steps = 0
         self.fault_hook = None        # callable(task, op, obj) run inside the task after each sync operation
+        # line-level scheduling: every source line executed by a managed task in one of these files (path suffixes) is a
+        # scheduling point (used to interleave plain library calls that share module-level state)
+        self.trace_files = ()
+        self.trace_repeat_limit = 3
 
     # -- called from any thread -------------------------------------------------------------
     def current(self) -> Optional[Task]:
@@ -134,6 +141,26 @@ class Kernel:
         t.state = 'running'
         t.pred = None
         return t.timed_out
+
+    def _tracer(self, frame, event, arg):
+        if event != 'call':
+            return None
+        fn = frame.f_code.co_filename
+        if not any(sfx in fn for sfx in self.trace_files):
+            return None
+        base = fn.rsplit('/', 1)[-1]
+
+        seen = {}
+
+        def local(frame, event, arg):
+            if event == 'line':
+                # a line inside a loop/comprehension is a scheduling point only for its first few executions per call
+                n = seen.get(frame.f_lineno, 0)
+                if n < self.trace_repeat_limit:
+                    seen[frame.f_lineno] = n + 1
+                    self.point('line', f'{base}:{frame.f_lineno}')
+            return local
+        return local
 
     # -- scheduler --------------------------------------------------------------------------
     def run(self) -> Outcome:
